@@ -211,7 +211,11 @@ impl<Effect, Event> Command<Effect, Event> {
             return TaskState::Missing;
         };
 
-        if task.is_aborted() {
+        // Neither is a task of an aborted command polled again: the command's own flag is only
+        // looked at when a settling pass starts, so without this a task that was already queued
+        // when another task aborted the command would still run, and could send further events
+        // and effects on behalf of work that has been cancelled.
+        if task.is_aborted() || self.aborted.load(Ordering::Acquire) {
             return TaskState::Completed;
         }
 
